@@ -376,7 +376,16 @@ pub fn member_boundaries(ctx: &Ctx) -> Stats {
             total += seq.len() + 12;
             recs.push(Rec { id: format!("b{}", recs.len()), desc: None, seq });
         }
-        let fc = FileCase { recs, fastq: false, opts: SerOpts { wrap: Some(80), crlf: false, final_newline: true }, gz: Some(GzLayout::Multi(3)), suffix: "fa.gz".into() };
+        let opts = SerOpts { wrap: Some(80), crlf: false, final_newline: true };
+        // (the estimate above can fall short of the serialised size wanted: top up until the text really is long enough)
+        while ser::to_fasta(&recs, &opts).len() < target + 10_000 {
+            for _ in 0..200 {
+                let len = rng.usize(200, 400);
+                let (_, seq) = gen_seq_any(&mut rng, len, true);
+                recs.push(Rec { id: format!("b{}", recs.len()), desc: None, seq });
+            }
+        }
+        let fc = FileCase { recs, fastq: false, opts, gz: Some(GzLayout::Multi(3)), suffix: "fa.gz".into() };
         let raw = ser::to_fasta(&fc.recs, &fc.opts);
         // find the raw prefix length whose stored member is exactly `target` bytes long
         let mut n1 = target.saturating_sub(40).min(raw.len());
